@@ -129,6 +129,12 @@ FAULTS = {
     "undefined-fn": ("undefined_function_xyz(1);", "run"),
     "div-zero": ("$q = 1 / 0;", "run"),
     "null-method": ("$o = null; $o->foo();", "run"),
+    # the fault on the 2nd / 3rd physical line of a multi-line construct: the line of the construct's faulty part
+    # (the missing ':' is detected at the ')' on the following line: either line names the construct)
+    "parse-multiline-call": ("$r = strlen(\n  'abc',\n  $y ? 1\n);", "parse", 2, 1),
+    "throw-multiline-array": ("$r = [\n  1,\n  undefined_function_xyz(2),\n  3];", "run", 2),
+    "parse-class-default": ("class K%d {\n  public $p = (1 + ;\n}", "parse", 1),
+    "throw-in-fn": ("function g%d() {\n  $l = 1;\n  throw new Exception('in fn');\n}\ng%d();", "run", 2),
 }
 
 
@@ -144,7 +150,11 @@ def fault_programs(rng, n):
                                      "$s%d = 'text';" % k, "$t%d = \"multi\nline\";" % k, "/* two\n lines */"]))
         before = eol.join(lines) + (eol if lines else "")
         kind = kinds[i % len(kinds)]
-        fault, phase = FAULTS[kind]
+        spec = FAULTS[kind]
+        fault, phase = spec[0], spec[1]
+        inner = spec[2] if len(spec) > 2 else 0          # the faulty part is `inner` lines below the construct's first line
+        tol = spec[3] if len(spec) > 3 else 0            # lines after it that still belong to the construct
+        fault = fault.replace("%d", str(i))
         mode = "plain"
         head = ""
         r = rng.random()
@@ -153,10 +163,18 @@ def fault_programs(rng, n):
             head = rng.choice(["<?php" + eol, "<html>" + eol + "<?php" + eol, "<?php "])
         elif r < 0.4:
             head = "#!/usr/bin/env zy\n" + rng.choice(["<?php" + eol, "<?php "])      # plain mode with a #! line
+        elif r < 0.5:
+            mode = "template"                                                        # a .php file with a #! line (ParseFile)
+            head = "#!/usr/bin/env php\n" + rng.choice(["<?php" + eol, "<?php "])
+        if mode == "template" and rng.random() < 0.4:
+            # PHP alternative syntax before the fault, with line breaks inside the rewritten parts (fix 3e8473a)
+            before += rng.choice(["if ($v0)\n\n:\n$alt = 1;\nelse\n:\n$alt = 2;\nendif;", "if ($v0): $alt = 1; endif;",
+                                  "while (false)\n:\n$alt = 1;\nendwhile;"]) + eol
         after = "" if kind.endswith("-eof") else eol + eol.join("$w%d = %d;" % (k, k) for k in range(rng.randrange(0, 4)))
         src = head + before + fault + after
-        line = (head + before).count("\n") + 1
-        progs.append({"src": src, "line": line, "kind": kind, "phase": phase, "eol": "crlf" if eol == "\r\n" else "lf", "mode": mode})
+        line = (head + before).count("\n") + 1 + inner
+        progs.append({"src": src, "line": line, "tol": tol, "kind": kind, "phase": phase, "eol": "crlf" if eol == "\r\n" else "lf",
+                      "mode": mode})
     return progs
 
 
@@ -413,13 +431,13 @@ def main(ck):
             if p["phase"] == "parse":
                 if o.get("parse") != "error":
                     ck.violation(key + ":no-diagnostic", {"case": p, "impl_out": o, "clause": "a parse error was expected"})
-                elif o.get("pline") != p["line"]:
+                elif not (p["line"] <= (o.get("pline") or 0) <= p["line"] + p.get("tol", 0)):
                     ck.violation(key, {"case": p, "impl_out": o,
                                        "clause": "parse diagnostic on line %s, fault on line %d" % (o.get("pline"), p["line"])})
             else:
                 if o.get("parse") != "ok" or o.get("run") != "throw":
                     ck.violation(key + ":no-throw", {"case": p, "impl_out": o, "clause": "an uncaught runtime error was expected"})
-                elif o.get("rline") != p["line"]:
+                elif not (p["line"] <= (o.get("rline") or 0) <= p["line"] + p.get("tol", 0)):
                     ck.violation(key, {"case": p, "impl_out": o,
                                        "clause": "runtime error reported on line %s, fault on line %d" % (o.get("rline"), p["line"])})
     ck.cov["planted_fault_programs"] = nfault
